@@ -24,6 +24,11 @@ type SpecEnv struct {
 	loopOrd     int
 	calleePkg   string
 	inPre       bool
+	postMode    bool // ensures: parameter names denote entry headers (current heap contents)
+	fuelSelf    map[string]bool // spec functions of the SCC being defined: use fuelVar
+	fuelVar     Term
+	depth       int
+	allocBase   *Term // fresh(x) means ref >= allocBase (callee contracts at call sites: allocation counter before the call)
 }
 
 func (e *SpecEnv) child() *SpecEnv {
@@ -129,6 +134,12 @@ func (x *Exec) evalSpec(env *SpecEnv, e Expr) Value {
 		return x.specBin(env, e)
 	case *ECond:
 		c := asTerm(x.evalSpec(env, e.C))
+		if c.S == "true" {
+			return x.evalSpec(env, e.A)
+		}
+		if c.S == "false" {
+			return x.evalSpec(env, e.B)
+		}
 		a := x.evalSpec(env, e.A)
 		b := x.evalSpec(env, e.B)
 		at, bt := coerce2(asTerm(a), asTerm(b))
@@ -334,6 +345,11 @@ func (x *Exec) specIdent(env *SpecEnv, e *EIdent) Value {
 					}
 					fail("spec: %s@pre: not a parameter", name)
 				}
+				if env.postMode {
+					if v, ok := x.pre.vars[o]; ok {
+						return v
+					}
+				}
 				if v, ok := env.st.vars[o]; ok {
 					return v
 				}
@@ -532,11 +548,15 @@ func (x *Exec) specCall(env *SpecEnv, e *ECall) Value {
 		}
 		return sc(ToReal(t))
 	case "fresh":
+		ab := x.alloc0
+		if env.allocBase != nil {
+			ab = *env.allocBase
+		}
 		switch v := arg(0).(type) {
 		case SliceV:
-			return sc(And(Cmp(">=", v.Ref, x.alloc0), Cmp("<", v.Ref, env.st.alloc)))
+			return sc(And(Cmp(">=", v.Ref, ab), Cmp("<", v.Ref, env.st.alloc)))
 		case PtrV:
-			return sc(And(Cmp(">=", v.Ref, x.alloc0), Cmp("<", v.Ref, env.st.alloc)))
+			return sc(And(Cmp(">=", v.Ref, ab), Cmp("<", v.Ref, env.st.alloc)))
 		}
 		fail("spec: fresh of non-reference")
 	case "allocated":
@@ -607,6 +627,10 @@ func (x *Exec) specCall(env *SpecEnv, e *ECall) Value {
 		return sc(EMod(asTerm(arg(0)), asTerm(arg(1))))
 	case "pow2":
 		return sc(Pow2(asTerm(arg(0))))
+	case "popcount8":
+		return sc(App(SInt, "popcount8", asTerm(arg(0))))
+	case "wrap64":
+		return sc(App(SInt, "wrap64", asTerm(arg(0))))
 	case "floor":
 		return sc(App(SInt, "to_int", ToReal(asTerm(arg(0)))))
 	case "slice":
@@ -621,12 +645,81 @@ func (x *Exec) specCall(env *SpecEnv, e *ECall) Value {
 	if len(e.Args) != len(sf.Params) {
 		fail("spec: %s expects %d arguments, got %d", e.Fn, len(sf.Params), len(e.Args))
 	}
+	// specialise on a literal argument
+	if sf.Special != "" {
+		for i, p := range sf.Params {
+			if p.Name != sf.Special {
+				continue
+			}
+			lit := asTerm(arg(i))
+			n, ok := intLit(lit)
+			if !ok {
+				break
+			}
+			inst := fmt.Sprintf("%s_%s%s", sf.Name, p.Name, n.String())
+			isf, ok := x.eng.specs.Funcs[inst]
+			if !ok {
+				var ps []Param
+				for j, q := range sf.Params {
+					if j != i {
+						ps = append(ps, q)
+					}
+				}
+				isf = &SpecFunc{Name: inst, Params: ps, Ret: sf.Ret, Body: sf.Body, Unfold: sf.Unfold, Fixed: map[string]Term{p.Name: lit}, Base: sf.Name}
+				x.eng.specs.Funcs[inst] = isf
+			}
+			var nargs []Expr
+			for j := range e.Args {
+				if j != i {
+					nargs = append(nargs, e.Args[j])
+				}
+			}
+			return x.specCall(env, &ECall{Fn: inst, Res: -1, Args: nargs})
+		}
+	}
 	var ats []Term
+	var avals []Value
 	for i, p := range sf.Params {
 		v := arg(i)
+		avals = append(avals, v)
 		ats = append(ats, x.coerceSpecArg(env, v, p.Type, e.Fn))
 	}
 	x.eng.useSpec(e.Fn)
+	// unfold-on-literal: inline the definition when the designated argument is a small literal
+	if sf.Unfold != "" && sf.Body != nil && env.depth < 80 {
+		for i, p := range sf.Params {
+			if p.Name != sf.Unfold {
+				continue
+			}
+			if n, ok := intLit(ats[i]); ok && n.IsInt64() && n.Int64() >= -1 && n.Int64() <= 64 {
+				in := &SpecEnv{x: x, st: env.st, preSt: env.preSt, bind: map[string]Value{}, bindPre: map[string]Value{}, bound: map[string]Value{},
+					fuelSelf: env.fuelSelf, fuelVar: env.fuelVar, depth: env.depth + 1}
+				for j, q := range sf.Params {
+					if strings.HasPrefix(q.Type, "seq<") {
+						in.bound[q.Name] = SeqV{ats[j]}
+					} else {
+						in.bound[q.Name] = sc(ats[j])
+					}
+				}
+				for k, v := range sf.Fixed {
+					in.bound[k] = sc(v)
+				}
+				r := x.evalSpec(in, sf.Body)
+				if sf.Ret == "real" {
+					return sc(ToReal(asTerm(r)))
+				}
+				return r
+			}
+		}
+	}
+	_ = avals
+	if x.eng.specRecursive(e.Fn) {
+		fuel := x.eng.topFuel()
+		if env.fuelSelf[e.Fn] {
+			fuel = env.fuelVar
+		}
+		ats = append([]Term{fuel}, ats...)
+	}
 	rs := x.specSort(sf.Ret)
 	name := e.Fn
 	if x.mode == "U" && x.eng.specUsesReal(e.Fn) {
